@@ -208,6 +208,9 @@ func runC22(p *Prog, r *Report) {
 	}
 	r.Floor("R1", "stackless call sites (incl. forwarded)", nsites, 6)
 
+	// --- R4: whichever way the operation ran, its buffered output is forwarded ----
+	runC22Forward(p, r)
+
 	// --- R2: sibling agreement of the body compressors --------------------
 	newCBS := p.Func("newCompressedBodyStream")
 	setCE := p.Func("(*ResponseHeader).SetContentEncodingBytes")
@@ -422,4 +425,55 @@ func globalBytesValue(p *Prog, g *ssa.Global) string {
 		}
 	}
 	return ""
+}
+
+// runC22Forward: in the stackless writer's dispatch function (the caller of the
+// stackless slot whose wrapped function fills an intermediate buffer), every
+// return either reports a non-nil error or follows the epilogue that forwards
+// the buffer to the destination and resets it. An early "return w.err" after
+// running the operation inline would drop the compressed bytes silently.
+func runC22Forward(p *Prog, r *Report) {
+	do := p.Func("stackless.(*writer).do")
+	xreset := p.Func("stackless.(*xWriter).Reset")
+	if do == nil || xreset == nil {
+		r.Undecided("R4", "anchor stackless.(*writer).do / (*xWriter).Reset", "function not found")
+		return
+	}
+	const bFwd uint64 = 1
+	nret, bad := 0, 0
+	var wit []string
+	pos := ""
+	sawWrite := false
+	allCalls(do, func(b *ssa.BasicBlock, c ssa.CallInstruction) {
+		if isInvoke(c, "Write") {
+			sawWrite = true
+		}
+	})
+	x := NewExplorer(p, do, Hooks{
+		Instr: func(x *Explorer, st *State, in ssa.Instruction) {
+			if c, ok := in.(ssa.CallInstruction); ok && isCallTo(c, xreset) {
+				st.Set(bFwd)
+			}
+		},
+		Exit: func(x *Explorer, st *State, ret *ssa.Return, pan *ssa.Panic) {
+			if ret == nil {
+				return
+			}
+			nret++
+			rr := returnResults(ret)
+			nonNilErr := len(rr) == 1 && x.Eval(st, rr[0]) == True
+			if !st.Has(bFwd) && !nonNilErr {
+				bad++
+				if wit == nil {
+					wit = x.Path(st)
+					pos = p.Pos(ret.Pos())
+				}
+			}
+		},
+	})
+	x.TrackAll = true
+	x.Run(nil)
+	r.Counts["R4 stackless writer.do return arrivals"] = nret
+	r.Check("R4", "stackless writer.do forwards the buffered output before every non-error return", bad == 0 && nret > 0 && sawWrite, pos,
+		fmt.Sprintf("%d of %d explored return arrivals leave (*writer).do without passing the forward-and-reset epilogue and without a known non-nil error (destination Write present: %v): compressed bytes produced by the operation stay in the intermediate buffer", bad, nret, sawWrite), wit...)
 }
